@@ -200,6 +200,70 @@ theorem poison_detected_translator_alone (c : CryptoOps) (cfg : PoisonCfg) (kv p
     (by simpa using hfail)
   simpa using this
 
+/-- **AcraTranslator, searchable decrypts** (`DecryptSearchable` for `k' = .struct`, `DecryptSymSearchable`
+for `k' = .block`; hash passed separately or not at all). Whatever reaches the poison detector – the whole
+input when no hash can be cut off, the rest behind the hash otherwise (and the client's own keys do not
+decrypt it) – if it contains a poison record, the alarm is raised and the client gets an error. On the
+pinned tree `DecryptSearchable` returned the error WITHOUT running the detector when no hash could be
+cut off (a poison record sent as is starts with `%`, never with a hash function number); repaired by
+"fix: DecryptSearchable checks for poison records when no hash can be split off". -/
+theorem poison_detected_translator_searchable (c : CryptoOps) (st : Translator.Store) (pkW : KeyView) (k k' : Kind)
+    (dataLen : Nat) (rnd P pre suf data id : Bytes) (hash : Option Bytes)
+    (hcb : st.poison.hasCallbacks = true)
+    (hP : createPoison c pkW k dataLen rnd = .ok P)
+    (h : RoundTripHyps c k pkW st.poison.pk (rnd.take dataLen) (rnd.drop dataLen) P)
+    (hpre : ∀ x ∈ pre, x ≠ 37)
+    (hd : (Searchable.extractHashAndData (Translator.dataToDecrypt data hash) = none ∧
+            Translator.dataToDecrypt data hash = pre ++ P ++ suf) ∨
+          (∃ hh, Searchable.extractHashAndData (Translator.dataToDecrypt data hash) = some (hh, pre ++ P ++ suf) ∧
+            ∀ m, decryptWithHandler c (st.keys id) k' (pre ++ P ++ suf) ≠ .ok m)) :
+    (Translator.decryptSearchableWith k' c st data hash (some id) none).1 = .err ∧
+    1 ≤ (Translator.decryptSearchableWith k' c st data hash (some id) none).2 := by
+  unfold Translator.decryptSearchableWith
+  rw [Translator.checkRequest_ok false id (Or.inl rfl)]
+  simp only
+  rcases hd with ⟨hx, hdd⟩ | ⟨hh, hx, hfail⟩
+  · rw [hx]
+    simp only
+    refine ⟨trivial, ?_⟩
+    obtain ⟨e, rfl, he, hlen, hproc⟩ := createPoison_facts c k pkW st.poison.pk dataLen rnd P h hP
+    unfold Translator.poisonScan
+    rw [hdd]
+    simp only [hcb, if_true]
+    exact translator_poison c st.poison k e pre suf hcb he hlen (isPoison_eq_true.2 ⟨_, hproc suf⟩)
+      (by rw [List.append_assoc]; exact c01_skip_of_no_tag_byte _ pre (serBytes e k.id ++ suf) hpre)
+  · rw [hx]
+    simp only
+    obtain ⟨h1, h2⟩ := poison_detected_translator c st.poison (st.keys id) pkW k k' dataLen rnd P pre suf hcb hP h hpre hfail
+    cases ht : translatorDecrypt c st.poison (st.keys id) k' (pre ++ P ++ suf) with
+    | mk o a =>
+      rw [ht] at h1 h2
+      simp only at h1 h2
+      subst h1
+      exact ⟨rfl, h2⟩
+
+/-- the record alone sent to a searchable decrypt without a hash: nothing can be cut off as a hash (a
+serialized container starts with `%`), the detector runs over the record – alarm, error -/
+theorem poison_detected_translator_searchable_alone (c : CryptoOps) (st : Translator.Store) (pkW : KeyView) (k k' : Kind)
+    (dataLen : Nat) (rnd P id : Bytes)
+    (hcb : st.poison.hasCallbacks = true)
+    (hP : createPoison c pkW k dataLen rnd = .ok P)
+    (h : RoundTripHyps c k pkW st.poison.pk (rnd.take dataLen) (rnd.drop dataLen) P) :
+    (Translator.decryptSearchableWith k' c st P none (some id) none).1 = .err ∧
+    1 ≤ (Translator.decryptSearchableWith k' c st P none (some id) none).2 := by
+  have hx : Searchable.extractHashAndData (Translator.dataToDecrypt P none) = none := by
+    obtain ⟨e, rfl, _, _, _⟩ := createPoison_facts c k pkW st.poison.pk dataLen rnd P h hP
+    have : Searchable.extractHash (serBytes e k.id) = none := by
+      unfold serBytes
+      have ht : containerTag = [37, 37, 37] := by decide
+      rw [ht]
+      simp only [List.cons_append, Searchable.extractHash]
+      have : Searchable.knownFunc 37 = false := by decide
+      simp [this]
+    simp [Translator.dataToDecrypt, Searchable.extractHashAndData, this]
+  exact poison_detected_translator_searchable c st pkW k k' dataLen rnd P [] [] P id none hcb hP h
+    (by intro x hx; cases hx) (Or.inl ⟨hx, by simp [Translator.dataToDecrypt]⟩)
+
 /-! ## 3. no false alarm
 
 `SeenByDetector c cfg kv d s` (in `Envelope/PoisonLemmas.lean`): `s` is one of the byte strings the
